@@ -538,6 +538,51 @@ mod pure_hosts {
         core::mem::forget(r); core::mem::forget(args);
         assert!(ok);
     }
+    fn returned_bytes(r: &Result<Computation, i32>) -> Option<(usize, Option<u8>, Option<u8>)> {
+        match returned(r) { Some(SemValue::Host(HostValue::Bytes(b))) => Some((b.len(), b.first().copied(), b.last().copied())), _ => None }
+    }
+    /// bytes_empty: nullary, returns a byte buffer of length 0
+    #[kani::proof]
+    #[kani::unwind(3)]
+    fn bytes_empty_whole() {
+        let none: [SemValue; 0] = [];
+        let r = call!(bytes_empty, &none);
+        let got = returned_bytes(&r);
+        core::mem::forget(r);
+        assert!(got == Some((0, None, None)));
+    }
+    /// bytes_append over symbolic contents of two fixed-length buffers (BOUNDED lengths 2 and 1): first then second, nothing lost
+    #[kani::proof]
+    #[kani::unwind(5)]
+    fn bytes_append_whole() {
+        let (a0, a1, b0): (u8, u8, u8) = (kani::any(), kani::any(), kani::any());
+        let args = [SemValue::Host(HostValue::Bytes(Rc::from([a0, a1]))), SemValue::Host(HostValue::Bytes(Rc::from([b0])))];
+        let r = call!(bytes_append, &args);
+        let got = returned_bytes(&r);
+        let mid = match returned(&r) { Some(SemValue::Host(HostValue::Bytes(b))) if b.len() == 3 => Some(b[1]), _ => None };
+        core::mem::forget(r); core::mem::forget(args);
+        assert!(got == Some((3, Some(a0), Some(b0))) && mid == Some(a1));
+    }
+    /// bytes_from_str, BOUNDED (fixed string with 1-4 byte encodings): the UTF-8 encoding, byte for byte in length and ends
+    #[kani::proof]
+    #[kani::unwind(13)]
+    fn bytes_from_str_whole() {
+        let args = [SemValue::Literal(Literal::String(Utf8String::from("a\u{e9}\u{20ac}\u{1f600}")))];
+        let r = call!(bytes_from_str, &args);
+        let got = returned_bytes(&r);
+        core::mem::forget(r); core::mem::forget(args);
+        assert!(got == Some((10, Some(b'a'), Some(0x80))));
+    }
+    /// str_append, BOUNDED (fixed strings): the concatenation, first then second, byte for byte
+    #[kani::proof]
+    #[kani::unwind(9)]
+    fn str_append_whole() {
+        let args = [SemValue::Literal(Literal::String(Utf8String::from("a\u{e9}"))), SemValue::Literal(Literal::String(Utf8String::from("\u{20ac}b")))];
+        let r = call!(str_append, &args);
+        let ok = match returned(&r) { Some(SemValue::Literal(Literal::String(s))) => { let b = s.as_str().as_bytes(); b.len() == 7 && b[0] == b'a' && b[1] == 0xC3 && b[3] == 0xE2 && b[6] == b'b' }, _ => false };
+        core::mem::forget(r); core::mem::forget(args);
+        assert!(ok);
+    }
     /// stdin / stdout / stderr: nullary, return the injected standard capabilities (and not each other's)
     #[kani::proof]
     fn standard_streams_whole() {
